@@ -88,6 +88,7 @@ Section Passes.
   (* ---- directive_include_skip ---- *)
   Variable jvars : list (bytes * json).   (* the request's variables object, as the Go pass reads it *)
   Variable vdefs : list vardef.
+  Variable al : bool.                     (* the directive walk before (true) / after (false) its repair *)
 
   (* the pass' verdict on a directive agrees with the executor's evaluation of that directive *)
   Definition dir_ok (d : directive) : bool :=
@@ -211,13 +212,13 @@ Section Passes.
   Lemma combine_seq_snd : forall (A : Type) (l : list A) s, map snd (combine (seq s (length l)) l) = l.
   Proof. induction l as [|x l IH]; intros s; cbn; [reflexivity|]. rewrite IH. reflexivity. Qed.
 
-  Lemma eval_dirs_spec : forall ds,
-      match eval_dirs jvars vdefs ds with
+  Lemma eval_dirs_aliased_spec : forall ds,
+      match eval_dirs_aliased jvars vdefs ds with
       | Some r => dsub ds r
       | None => exists d, In d ds /\ dir_verdict jvars vdefs d = DRemoveNode
       end.
   Proof.
-    intro ds. unfold eval_dirs.
+    intro ds. unfold eval_dirs_aliased.
     pose proof (walk_dirs_spec (combine (seq O (length ds)) ds) ds) as H.
     rewrite combine_seq_fst, combine_seq_snd in H.
     specialize (H (seq_NoDup _ _) (length ds) O (length ds) (combine (seq O (length ds)) ds) (fun p Hp => Hp)).
@@ -225,6 +226,29 @@ Section Passes.
     rewrite firstn_all2 in H by (rewrite combine_length, seq_length, Nat.min_id; lia).
     rewrite combine_seq_snd in H. exact (H (dsub_refl ds)).
   Qed.
+  (* the repaired walk: exactly the directives with verdict "drop" are dropped *)
+  Lemma eval_dirs_copy_spec : forall ds,
+      match eval_dirs_copy jvars vdefs ds with
+      | Some r => dsub ds r
+      | None => exists d, In d ds /\ dir_verdict jvars vdefs d = DRemoveNode
+      end.
+  Proof.
+    induction ds as [|d r IH]; cbn [eval_dirs_copy]; [apply dsub_nil|].
+    destruct (dir_verdict jvars vdefs d) eqn:Ev.
+    - exists d. split; [left; reflexivity|exact Ev].
+    - destruct (eval_dirs_copy jvars vdefs r) as [r'|].
+      + apply dsub_drop; assumption.
+      + destruct IH as [x [Hx Hv]]. exists x. split; [right; exact Hx|exact Hv].
+    - destruct (eval_dirs_copy jvars vdefs r) as [r'|].
+      + apply dsub_keep. exact IH.
+      + destruct IH as [x [Hx Hv]]. exists x. split; [right; exact Hx|exact Hv].
+  Qed.
+  Lemma eval_dirs_spec : forall ds,
+      match eval_dirs jvars vdefs al ds with
+      | Some r => dsub ds r
+      | None => exists d, In d ds /\ dir_verdict jvars vdefs d = DRemoveNode
+      end.
+  Proof. intro ds. unfold eval_dirs. destruct al; [apply eval_dirs_aliased_spec|apply eval_dirs_copy_spec]. Qed.
 
   Lemma included_false_in : forall ds d, In d ds -> included vars [d] = false -> included vars ds = false.
   Proof.
@@ -235,13 +259,13 @@ Section Passes.
 
   Lemma eval_dirs_included : forall ds,
       forallb dir_ok ds = true ->
-      match eval_dirs jvars vdefs ds with
+      match eval_dirs jvars vdefs al ds with
       | Some ds' => included vars ds = included vars ds'
       | None => included vars ds = false
       end.
   Proof.
     intros ds Hok. pose proof (eval_dirs_spec ds) as H.
-    destruct (eval_dirs jvars vdefs ds) as [r|].
+    destruct (eval_dirs jvars vdefs al ds) as [r|].
     - apply dsub_included; assumption.
     - destruct H as [d [Hin Hv]]. apply (included_false_in ds d Hin).
       rewrite forallb_forall in Hok. specialize (Hok d Hin). unfold dir_ok in Hok. rewrite Hv in Hok.
@@ -336,7 +360,7 @@ Section Passes.
     match l with
     | [] => ([], false)
     | s :: r =>
-      match is_node jvars vdefs f s with
+      match is_node jvars vdefs al f s with
       | None => (r, true)
       | Some s' => let '(r', b) := is_pass f r in (s' :: r', b)
       end
@@ -344,16 +368,16 @@ Section Passes.
   Definition after_removal (l' : list selection) : list selection :=
     match l' with [] => [placeholder] | _ :: _ => l' end.
   Lemma is_set_S : forall f l,
-      is_set jvars vdefs (Datatypes.S f) l =
+      is_set jvars vdefs al (Datatypes.S f) l =
       let '(l', removed) := is_pass f l in
-      if removed then is_set jvars vdefs f (after_removal l') else l'.
+      if removed then is_set jvars vdefs al f (after_removal l') else l'.
   Proof.
     intros f l. cbn [is_set].
     assert (E : forall l0, (fix pass (l : list selection) : list selection * bool :=
                               match l with
                               | [] => ([], false)
                               | s :: r =>
-                                match is_node jvars vdefs f s with
+                                match is_node jvars vdefs al f s with
                                 | None => (r, true)
                                 | Some s' => let '(r', b) := pass r in (s' :: r', b)
                                 end
@@ -362,37 +386,37 @@ Section Passes.
     rewrite E. reflexivity.
   Qed.
   Lemma is_node_S : forall f s,
-      is_node jvars vdefs (Datatypes.S f) s =
-      match eval_dirs jvars vdefs (sel_dirs s) with
+      is_node jvars vdefs al (Datatypes.S f) s =
+      match eval_dirs jvars vdefs al (sel_dirs s) with
       | None => None
       | Some ds' =>
         Some (match s with
-              | SField a n args _ sub => SField a n args ds' (is_set jvars vdefs f sub)
-              | SInline c _ sub => SInline c ds' (is_set jvars vdefs f sub)
+              | SField a n args _ sub => SField a n args ds' (is_set jvars vdefs al f sub)
+              | SInline c _ sub => SInline c ds' (is_set jvars vdefs al f sub)
               | SSpread fn _ => SSpread fn ds'
               end)
       end.
-  Proof. intros f s. destruct s; cbn [is_node sel_dirs]; destruct (eval_dirs jvars vdefs _); reflexivity. Qed.
+  Proof. intros f s. destruct s; cbn [is_node sel_dirs]; destruct (eval_dirs jvars vdefs al _); reflexivity. Qed.
 
   Lemma is_pass_rel : forall f,
-      (forall s, match is_node jvars vdefs f s with Some s' => orel s s' | None => has_remove (sel_dirs s) end) ->
+      (forall s, match is_node jvars vdefs al f s with Some s' => orel s s' | None => has_remove (sel_dirs s) end) ->
       forall l, olist l (fst (is_pass f l)) /\ (snd (is_pass f l) = true -> l <> []).
   Proof.
     intros f HA. induction l as [|s r [IH1 IH2]]; cbn [is_pass]; [split; [apply ol_nil|discriminate]|].
-    specialize (HA s). destruct (is_node jvars vdefs f s) as [s'|].
+    specialize (HA s). destruct (is_node jvars vdefs al f s) as [s'|].
     - destruct (is_pass f r) as [r' b]. cbn in *. split; [apply ol_keep; assumption|discriminate].
     - cbn. split; [apply ol_drop; [exact HA|apply olist_refl]|discriminate].
   Qed.
 
   Lemma is_walk_rel : forall f,
-      (forall s, match is_node jvars vdefs f s with Some s' => orel s s' | None => has_remove (sel_dirs s) end) /\
-      (forall l, olist l (is_set jvars vdefs f l)).
+      (forall s, match is_node jvars vdefs al f s with Some s' => orel s s' | None => has_remove (sel_dirs s) end) /\
+      (forall l, olist l (is_set jvars vdefs al f l)).
   Proof.
     induction f as [|f [IHA IHB]].
     - split; [intro s; apply orel_refl|intro l; apply olist_refl].
     - split.
       + intro s. rewrite is_node_S. pose proof (eval_dirs_spec (sel_dirs s)) as HE.
-        destruct (eval_dirs jvars vdefs (sel_dirs s)) as [ds'|]; [|exact HE].
+        destruct (eval_dirs jvars vdefs al (sel_dirs s)) as [ds'|]; [|exact HE].
         destruct s; cbn [sel_dirs] in *; [apply or_field|apply or_inline|apply or_spread]; auto.
       + intro l. rewrite is_set_S. destruct (is_pass_rel f IHA l) as [H1 H2].
         destruct (is_pass f l) as [l' removed]. cbn in H1, H2. destruct removed; [|exact H1].
@@ -448,8 +472,8 @@ Section Passes.
   Qed.
 
   Lemma is_sels_lrel : forall fuel l,
-      forallb dirs_ok_sel l = true -> forallb nph_sel (is_sels jvars vdefs fuel l) = true ->
-      lrel l (is_sels jvars vdefs fuel l).
+      forallb dirs_ok_sel l = true -> forallb nph_sel (is_sels jvars vdefs al fuel l) = true ->
+      lrel l (is_sels jvars vdefs al fuel l).
   Proof.
     intros fuel l H1 H2. apply (proj2 orel_olist_lrel); [|exact H1|exact H2].
     apply (proj2 (is_walk_rel fuel)).
@@ -514,14 +538,14 @@ Definition include_skip_ok (jvars vars : list (bytes * json)) (d : document) : b
   let fuel := include_skip_fuel d in
   forallb (fun def => match def with
                       | DOp o => forallb (dirs_ok_sel vars jvars vdefs) (op_sels o) &&
-                                 forallb nph_sel (is_sels jvars vdefs fuel (op_sels o))
+                                 forallb nph_sel (is_sels jvars vdefs false fuel (op_sels o))
                       | DFrag f => forallb (dirs_ok_sel vars jvars vdefs) (fr_sels f) &&
-                                   forallb nph_sel (is_sels jvars vdefs fuel (fr_sels f))
+                                   forallb nph_sel (is_sels jvars vdefs false fuel (fr_sels f))
                       end) d.
 
 Lemma include_skip_rewrite : forall jv d,
-    include_skip jv d = doc_rewrite (fun o => is_sels jv (doc_vardefs d) (include_skip_fuel d) (op_sels o))
-                                    (fun f => is_sels jv (doc_vardefs d) (include_skip_fuel d) (fr_sels f)) d.
+    include_skip jv d = doc_rewrite (fun o => is_sels jv (doc_vardefs d) false (include_skip_fuel d) (op_sels o))
+                                    (fun f => is_sels jv (doc_vardefs d) false (include_skip_fuel d) (fr_sels f)) d.
 Proof. reflexivity. Qed.
 
 Lemma In_doc_ops : forall d o, In o (doc_ops d) -> In (DOp o) d.
